@@ -2,6 +2,7 @@ package main
 
 import (
 	"fmt"
+	"go/ast"
 	"go/constant"
 	"go/token"
 	"go/types"
@@ -639,6 +640,95 @@ func init() {
 					add("joined with loader's directory", Proved, "the read path derives from filepath.Join(filepath.Dir(ctx.Location()), loc)", readCall.Pos())
 				} else {
 					add("joined with loader's directory", Violated, "the read path does not derive from Join(Dir(ctx.Location()), loc): relative locations no longer resolve against the loading file's directory", readCall.Pos())
+				}
+			}
+			return obs
+		}})
+
+	register(&Rule{ID: "CONFINE.root-fs", Floor: 3,
+		Doc: "wherever the module itself confines loading to a root directory through the fs.FS library (the run, debug and repl commands' --root-dir), the file system is (*os.Root).FS() — which refuses every path that resolves outside the directory — and never os.DirFS, which checks names only and follows a symbolic link inside the directory wherever it points",
+		Run: func(c *Ctx) []Obligation {
+			fsl := c.LookupType("lisp.FSLibrary")
+			if fsl == nil {
+				return []Obligation{anchorMissing("CONFINE.root-fs", "lisp.FSLibrary")}
+			}
+			var obs []Obligation
+			for _, p := range c.Pkgs {
+				if !strings.HasPrefix(p.PkgPath, modPath) {
+					continue
+				}
+				info := p.TypesInfo
+				for _, f := range p.Syntax {
+					if strings.HasSuffix(c.Fset.Position(f.Pos()).Filename, "_test.go") {
+						continue
+					}
+					for _, d := range f.Decls {
+						// the enclosing top-level declaration names the site (functions and
+						// package-level command variables whose Run field is a literal)
+						owner := rel(p.PkgPath) + ".?"
+						switch dd := d.(type) {
+						case *ast.FuncDecl:
+							if o, ok := info.Defs[dd.Name].(*types.Func); ok {
+								owner = FuncName(o)
+							}
+						case *ast.GenDecl:
+							for _, sp := range dd.Specs {
+								if vs, ok := sp.(*ast.ValueSpec); ok && len(vs.Names) > 0 {
+									owner = rel(p.PkgPath) + "." + vs.Names[0].Name
+								}
+							}
+						}
+						ord := &ordinal{}
+						add := func(construct string, n ast.Node, verdict, detail string, nt bool) {
+							obs = append(obs, Obligation{Rule: "CONFINE.root-fs", Func: owner, Construct: ord.next(construct), Pos: c.Pos(n.Pos()), Verdict: verdict, Detail: detail, Nontrivial: nt})
+						}
+						ast.Inspect(d, func(n ast.Node) bool {
+							switch x := n.(type) {
+							case *ast.CallExpr:
+								if stdFuncCalled(info, x, "os", "DirFS") {
+									add("call os.DirFS", x, Violated, "os.DirFS follows symbolic links out of the directory: a link inside the root that points outside is read and evaluated", true)
+								}
+							case *ast.CompositeLit:
+								tv, ok := info.Types[x]
+								if !ok {
+									return true
+								}
+								t := tv.Type
+								if pt, ok := t.(*types.Pointer); ok {
+									t = pt.Elem()
+								}
+								if types.Unalias(t) != types.Type(fsl) {
+									return true
+								}
+								var val ast.Expr
+								for _, el := range x.Elts {
+									if kv, ok := el.(*ast.KeyValueExpr); ok {
+										if id, ok := kv.Key.(*ast.Ident); ok && id.Name == "FS" {
+											val = kv.Value
+										}
+									} else if val == nil {
+										val = el
+									}
+								}
+								if val == nil {
+									add("FSLibrary literal", x, Proved, "no file system set here", false)
+									return true
+								}
+								if ce, ok := ast.Unparen(val).(*ast.CallExpr); ok {
+									if fn := Callee(info, ce); fn != nil && fn.Pkg() != nil && fn.Pkg().Path() == "os" && fn.Name() == "FS" {
+										add("FSLibrary literal", x, Proved, "FS: (*os.Root).FS() — resolves every path inside the root or fails", true)
+										return true
+									}
+									if stdFuncCalled(info, ce, "os", "DirFS") {
+										add("FSLibrary literal", x, Violated, "FS: os.DirFS(...) — confinement by name only; symbolic links are followed out of the root", true)
+										return true
+									}
+								}
+								add("FSLibrary literal", x, Proved, "FS: `"+types.ExprString(val)+"` supplied by the caller (an embedder's own fs.FS)", false)
+							}
+							return true
+						})
+					}
 				}
 			}
 			return obs
